@@ -1,24 +1,21 @@
 use ldk_verif_harness::common::*;
 use ldk_verif_harness::sim::*;
 fn main() {
-	let args = parse_args("simtest");
-	let mut rng = Rng::new(args.seed);
-	let mut net = Net::new(2, vec![None, None]);
-	let c = net.open(0, 1, 1_000_000, 400_000_000);
-	eprintln!("opened chan {}", c);
-	for step in 0..60 {
-		let r = rng.below(10);
-		match r {
-			0 | 1 => { let (a, b) = if rng.chance(1, 2) { (0, 1) } else { (1, 0) }; let amt = 1000 + rng.below(50_000_000); let r = net.send(&[a, b], &[c], amt, 70); eprintln!("{} send {}->{} {} => {:?}", step, a, b, amt, r.map(|_| ())); },
-			2 | 3 | 4 | 5 => { if let Some((i, j)) = net.any_queued() { let k = net.deliver(i, j); eprintln!("{} deliver {}->{} {:?}", step, i, j, k); } },
-			6 => { let i = rng.below(2) as usize; net.forward(i); net.process_events(i); eprintln!("{} fwd+events {}", step, i); },
-			7 => { if !net.pays.is_empty() { let p = rng.below(net.pays.len() as u64) as usize; if net.claimable[net.pays[p].to].iter().any(|c| c.0 == net.pays[p].hash) { net.claim(p); eprintln!("{} claim {}", step, p); } } },
-			8 => { let i = rng.below(2) as usize; let m = !net.in_progress[i]; if m || net.pending_updates(i, c).is_empty() { net.set_mode(i, m); eprintln!("{} mode {} {}", step, i, m); } },
-			_ => { let i = rng.below(2) as usize; let p = net.pending_updates(i, c); if !p.is_empty() { let id = *rng.pick(&p); net.complete(i, c, id); eprintln!("{} complete {} {}", step, i, id); } },
-		}
-	}
-	for o in &net.trace { eprintln!("  {}", fmt_obs(o)); }
-	eprintln!("{:?}", net.channel_dump(0));
-	eprintln!("{:?}", net.channel_dump(1));
+	let _args = parse_args("simtest");
+	let mut net = Net::new(3, vec![None, None, None]);
+	let c0 = net.open(0, 1, 1_000_000, 400_000_000);
+	let c1 = net.open(1, 2, 1_000_000, 400_000_000);
+	let p = net.send(&[0, 1, 2], &[c0, c1], 5_000_000, 70).unwrap();
+	net.settle(6);
+	eprintln!("claimable at 2: {:?}", net.claimable[2].len());
+	net.claim(p);
+	// deliver fulfill to node 1 then restart node 1 mid-way
+	if let Some((i, j)) = net.any_queued() { net.deliver(i, j); }
+	let r = net.restart(1);
+	eprintln!("restart: {:?}", r);
+	net.reconnect(0, 1); net.reconnect(1, 2);
+	net.settle(10);
+	for o in &net.trace { if !matches!(o, Obs::Balance{..}) { eprintln!("  {}", fmt_obs(o)); } }
+	for i in 0..3 { eprintln!("{:?}", net.channel_dump(i)); }
 	std::mem::forget(net);
 }
